@@ -78,12 +78,11 @@ ArgSet == CoreSet \cup ExtraSet
 \* Thorough: the full product for lengths <= 2, (leads x leads x every class) for length 3.
 Lead == {"zero", "sx", "obj"}
 LeadPairs == {<<"zero", "zero">>, <<"obj", "sx">>, <<"abuf", "zero">>}
-Lead3 == Lead \cup {"undefined", "abuf"}
 Pairs == IF Quick THEN {<<xa, ya>> : xa \in CoreSet, ya \in CoreSet} \cup {<<xa, ya>> : xa \in Lead, ya \in ExtraSet}
                        \cup {<<xa, ya>> : xa \in ExtraSet, ya \in Lead}
          ELSE {<<xa, ya>> : xa \in ArgSet, ya \in ArgSet}
 Triples == IF Quick THEN {lp \o <<za>> : lp \in LeadPairs, za \in ArgSet}
-           ELSE {<<xa, ya, za>> : xa \in Lead3, ya \in Lead3, za \in ArgSet}
+           ELSE {<<xa, ya, za>> : xa \in Lead \cup {"abuf"}, ya \in Lead, za \in ArgSet}
 ArgVectors == {<<>>} \cup {<<xa>> : xa \in ArgSet} \cup Pairs \cup Triples
 \* the vectors given (quick tier) to the receivers that vary the shape / value of a receiver kind (empty array, empty string,
 \* NaN, -Infinity, 1e21): every class alone, and the core classes after each lead.  Thorough: all vectors.
